@@ -19,6 +19,7 @@ def tasks_for(pid, tier, seed):
     reg = all_contracts()
     if pid == 'C06':
         out.append(('vt.lemmas.lown', 'run', {'backend': 'E1', 'pid': pid, 'lemma': 'L-own'}))
+        out.append(('vt.lemmas.leanprod', 'run', {'backend': 'E1', 'pid': pid, 'lemma': 'L-prod (Lean)'}))
     for name, c in sorted(reg.items()):
         if pid not in c.props or not c.verify:
             continue
